@@ -233,6 +233,7 @@ type Opts struct {
 	Wide     int  // size of the occasional wide container (0: none)
 	NoNaN    bool // exclude NaN from float scalars, summaries and float arrays (ordering laws)
 	BigText  bool // allow 64 KiB-threshold strings
+	OddIP    bool // IPv4 values are sometimes constructed from an address that is not 4 bytes long (16 = IPv6, 0, 3, 5): the constructor makes 0.0.0.0 of it
 }
 
 var scalarTypes = []byte{ref.TNull, ref.TBool, ref.TDecimal, ref.TInt, ref.TLong, ref.TFloat, ref.TDouble, ref.TDSum, ref.TLSum, ref.TText, ref.TTextHash, ref.TBlob, ref.TIP4,
@@ -314,7 +315,11 @@ func DrawOfType(t *rapid.T, o Opts, ty byte, depth int, top bool) *ref.V {
 	case ref.TBlob:
 		v.S = hex.EncodeToString(gen.Bytes(o.BigText).Draw(t, "b"))
 	case ref.TIP4:
-		v.S = hex.EncodeToString(rapid.SliceOfN(rapid.Byte(), 4, 4).Draw(t, "ip"))
+		n := 4
+		if o.OddIP && rapid.IntRange(0, 3).Draw(t, "oddip") == 0 {
+			n = rapid.SampledFrom([]int{16, 16, 0, 3, 5}).Draw(t, "iplen")
+		}
+		v.S = hex.EncodeToString(rapid.SliceOfN(rapid.Byte(), n, n).Draw(t, "ip"))
 	case ref.TIntArr, ref.TLongArr, ref.TFloatArr:
 		n := arrLen(t, o, top)
 		v.N = make([]int64, n)
